@@ -62,9 +62,9 @@ Definition ha_heap_init (c : hcfg) : hres hastate :=
   let region_start := h_base c in
   let hs := align_forward region_start ALLOC_ALIGN in
   let region_offset := w64 (hs - region_start) in
-  if h_size c <? w64 (region_offset + NODE) then HPanic
+  if h_size c <? w64 (region_offset + w64 (2 * NODE)) then HPanic
   else
-    let heap_size := w64 (w64 (h_size c - region_offset) - NODE) in
+    let heap_size := align_down (w64 (w64 (h_size c - region_offset) - NODE)) ALLOC_ALIGN in
     let sz := w64 (heap_size - NODE) in
     HOk (mkhastate true [mkchunk hs sz false] (bins_add empty_bins sz hs)).
 
